@@ -10,6 +10,8 @@ import numpy as np
 
 from vmon.ref import pauli as rp
 
+TECHNIQUE = ('runtime monitoring: contracts on every Pauli conversion and on the PauliOperator algebra against a reference (phase in Z4, letters) algebra with a hand-written multiplication table and own sigma matrices; exhaustive operands and ordered pairs')
+LEVEL_TEXT = ('Exploration, exhaustive on the finite domains: all 4^(n+1) phased Paulis and all ordered pairs for n<=2 (quick) / n<=3 (thorough), all indices n<=4/6, random n<=12, uint64-edge indices below 4^31.')
 RULE = ('cases = (operation, operand(s)) tuples: every phased Pauli and every ordered pair for n<=2 (quick) / n<=3 '
         '(thorough) enumerated completely, plus random operands n<=12, batched conversions and index edge values; '
         'a case is non-trivial when at least one operand is not a phase multiple of the identity; distinct by digest of '
